@@ -32,7 +32,7 @@ ASSUMPTIONS = ["known findings are keyed by (phase, exception type, raising "
                "place is reported as new",
                "step budget: 3000 + 150 * len(frame) executed lines in "
                "pox.lib.packet per parse+print+pack"]
-REQUIRED = ["frames", "unparsed_layers_compared_with_their_region", "payload_presence_checked", "parsed_ok", "truncations", "corruptions", "structured",
+REQUIRED = ["frames", "unparsed_layers_compared_with_their_region", "parsed_ok", "truncations", "corruptions", "structured",
             "random_frames", "chains_walked", "reserialised", "printed",
             "budget_armed", "packet_in_events", "checksum_fixed_mutants",
             "deeply_nested_frames"]
